@@ -5,6 +5,7 @@ package main
 
 import (
 	"fmt"
+	"os"
 	"go/constant"
 	"go/token"
 	"go/types"
@@ -68,6 +69,10 @@ type FnCtx struct {
 	exercised map[*AtCall]bool
 	readLog   *[]string
 	readSeen  map[string]string
+	ipdomCache map[*ssa.Function]map[*ssa.BasicBlock]*ssa.BasicBlock
+	noMerge   bool
+	merges    int
+	joinCache map[joinKey]*ssa.BasicBlock
 }
 
 type callFrame struct {
@@ -76,6 +81,10 @@ type callFrame struct {
 	depth     int
 	deferBase int
 	top       bool
+	stopAt    *ssa.BasicBlock
+	caps      *[]*capture
+	capDepth  int
+	capConds  int
 }
 
 func (fx *FnCtx) unsupported(msg string) { fx.unsup[msg] = true }
@@ -113,11 +122,17 @@ func (fx *FnCtx) oblige(st *State, name, kind string, cl *Clause, goal string) {
 		return
 	}
 	var inputs *ModelInputs
+	if os.Getenv("TURNVC_TRACE") == "2" {
+		fmt.Fprintf(os.Stderr, "CHECK %s goal=%d bytes script=%d lines\n", name, len(goal), len(fx.sol.decls)+fx.sol.nlines())
+	}
 	r := fx.sol.CheckNeg(goal, func(get func([]string) map[string]string) {
 		inputs = fx.extractInputs(get)
 	})
 	o.Ms += r.Ms
 	o.Backends[r.Backend]++
+	if os.Getenv("TURNVC_TRACE") != "" && (r.Ms > 500 || r.Status != "unsat") {
+		fmt.Fprintf(os.Stderr, "TRACE %s %s %.0fms path=%v paths=%d merges=%d\n", name, r.Status, r.Ms, st.path, fx.paths, fx.merges)
+	}
 	if strings.Contains(r.Raw, "(error") {
 		fx.unsupported("solver reported an error on " + name + ": " + firstLines(r.Raw, 2))
 	}
@@ -438,6 +453,9 @@ func (fx *FnCtx) execBlock(st *State, fr *callFrame, b *ssa.BasicBlock, start in
 	if fx.aborted {
 		return
 	}
+	if start == 0 && pred != nil && fx.arriveCapture(st, fr, b, pred) {
+		return
+	}
 	if start == 0 {
 		if fr.top {
 			st.path = append(st.path, b.Index)
@@ -536,11 +554,28 @@ func (fx *FnCtx) branch(st *State, fr *callFrame, b *ssa.BasicBlock, c string) {
 		fx.execBlock(st, fr, b.Succs[1], 0, b)
 		return
 	}
+	// merge at the immediate post-dominator when possible
+	var j *ssa.BasicBlock
+	if !fx.noMerge {
+		j = fx.joinOf(fr.fn, b)
+		if j != nil {
+			if _, isLoop := fx.loops[j]; isLoop || len(j.Preds) < 2 {
+				j = nil
+			}
+		}
+	}
+	var caps []*capture
+	savedStop, savedCaps, savedDepth, savedConds := fr.stopAt, fr.caps, fr.capDepth, fr.capConds
+	if j != nil {
+		fr.stopAt, fr.caps, fr.capDepth, fr.capConds = j, &caps, len(fx.sol.frames), len(st.conds)
+	}
+	prefix := append([]string{}, st.conds...)
 	for i, cond := range []string{c, tNot(c)} {
 		s2 := st
 		if i == 0 {
 			s2 = st.clone()
 		}
+		s2.conds = append(append([]string{}, prefix...), cond)
 		fx.sol.Push()
 		fx.sol.Assert(cond)
 		feasible := true
@@ -552,9 +587,44 @@ func (fx *FnCtx) branch(st *State, fr *callFrame, b *ssa.BasicBlock, c string) {
 		}
 		fx.sol.Pop()
 		if fx.aborted {
+			fr.stopAt, fr.caps, fr.capDepth, fr.capConds = savedStop, savedCaps, savedDepth, savedConds
 			return
 		}
 	}
+	fr.stopAt, fr.caps, fr.capDepth, fr.capConds = savedStop, savedCaps, savedDepth, savedConds
+	if j == nil || len(caps) == 0 {
+		return
+	}
+	merged := fx.mergeStates(caps, prefix)
+	if merged == nil {
+		// cannot merge (different pending defers): continue each captured state on its own
+		for _, cp := range caps {
+			fx.sol.Push()
+			for _, l := range cp.lines {
+				if t, ok := stripAssert(l); ok {
+					fx.sol.Assert(t)
+				}
+			}
+			fx.execBlock(cp.st, fr, j, firstNonPhi(j), nil)
+			fx.sol.Pop()
+		}
+		return
+	}
+	fx.assertCaptured(caps)
+	fx.merges++
+	// the merged state arrives at j: it may itself be captured by an enclosing merge with the same join point
+	if fr.stopAt == j && fr.caps != nil {
+		var lines []string
+		for _, f := range fx.sol.frames[fr.capDepth:] {
+			lines = append(lines, f.lines...)
+		}
+		*fr.caps = append(*fr.caps, &capture{st: merged, pc: tAnd(merged.conds[fr.capConds:]...), lines: lines})
+		return
+	}
+	if fr.top {
+		merged.path = append(merged.path, j.Index)
+	}
+	fx.execBlock(merged, fr, j, firstNonPhi(j), nil)
 }
 
 func (fx *FnCtx) oname(kind, label string) string {
